@@ -97,7 +97,10 @@ def imageDsOf (v : Json) : Except String ImageDs := do
     | _ => throw "coord: slide / patient expected")
   let tf ← getOpt v "tiled_full" (fun x => do
     pure ({ rows := ← getInt x "rows", cols := ← getInt x "cols", totalRows := ← getInt x "trows", totalCols := ← getInt x "tcols",
-            channels := ← getNat x "channels", focalPlanes := ← getOpt x "planes" (fun y => y.getNat?) } : TiledFull))
+            source := { sopClass := ← getStr x "sop_class", segmentationType := (← getOpt x "segmentation_type" (fun y => y.getStr?)).getD "",
+                        segments := ← getNat x "segments", declaredPaths := ← getOpt x "declared_paths" (fun y => y.getNat?),
+                        pathItems := ← getNat x "path_items" },
+            focalPlanes := ← getOpt x "planes" (fun y => y.getNat?) } : TiledFull))
   let org ← getOpt v "total_origin" (fun x => do
     pure (← getRat x "x", ← getRat x "y", ← getOpt x "z" parseRat))
   let shared ← (match v.getObjVal? "shared" with | .ok (.obj o) => groupsOf (.obj o) | _ => pure ({} : Groups))
